@@ -4,6 +4,7 @@ from .. import simplify as S
 from .. import terms as T
 from .. import vmloops as V
 from .. import asmchecks as AC
+from .. import renderhandle as RH
 
 
 def r2c_tracing_operand_order(rule, root=None):
@@ -42,3 +43,5 @@ def run(ctx):
     r = ctx.rule("R7", "native tracing assemblers follow the choice protocol simplify relies on", 2 * 26)
     for kind in AC.TRACING:
         ctx.guarded(r, AC.check_choice_protocol, kind)
+    r = ctx.rule("R4", "a cached simplification is reused only for the same trace; new children are keyed by a copy of their trace", 11)
+    ctx.guarded(r, RH.r_cache_key)
